@@ -86,6 +86,7 @@ type KStats struct {
 	Polls, PollsMulti, PollTimeouts                                 int
 	PollsTruncated, MaxReady                                        int // ready set larger than the caller's event list; largest ready set
 	RstAtWrite                                                      int // writes that were the first call to meet a peer reset
+	RstWithReadableData                                             int // resets that left already delivered bytes readable
 	Accepts, Closes, Dials, DialRefused                             int
 }
 
@@ -709,12 +710,19 @@ func (k *Kernel) ArmRstAtWrite(s *Sock) {
 	k.logf("RST armed for the next write on sock=%d", s.id)
 }
 
-func (k *Kernel) PeerRst(s *Sock) {
+// PeerRst: the peer resets the connection. Bytes delivered earlier and not yet read are either lost with it (keep=false:
+// the segments carrying them never arrived) or stay readable before the first ECONNRESET (keep=true: Linux leaves the
+// receive queue intact when an RST arrives; tcp_recvmsg hands out queued data before it reports sk_err).
+func (k *Kernel) PeerRst(s *Sock, keep bool) {
 	k.mu.Lock()
 	defer k.mu.Unlock()
 	s.peerRst = true
-	s.in = nil
-	k.logf("peer RST sock=%d", s.id)
+	if !keep {
+		s.in = nil
+	} else if len(s.in) > 0 {
+		k.Stats.RstWithReadableData++
+	}
+	k.logf("peer RST sock=%d keep=%v", s.id, keep)
 }
 
 func (k *Kernel) Lines() []string { return k.lines }
